@@ -103,6 +103,127 @@ CHECKS['C17'] = dict(
          'conversation is validated by FtpControlMon (VIOLATION) and FtpControlTrace (DRIFT).',
     design_ref='DESIGN.md 5 (C17)')
 
+
+CHECKS['C08'] = dict(
+    technique='TLA+ model of the HTTP response reader (HttpWire.tla) checked by TLC against RFC 7230 reference operators; '
+              'TLC-generated behaviours and seeded random messages served byte-exactly to the real client over an '
+              'in-memory network; recorded executions validated by TLC monitor and trace specs',
+    text='HttpWire.tla is an implementation-shaped model of Session/Stream/ChunkedTransferReader in which every read may '
+         'return any number of octets (= all segmentations).  TLC checks it exhaustively against reference operators '
+         'written from RFC 7230 3.3.3 only, for bounded message spaces: methods, status classes incl. an interim 1xx, four '
+         'transfer-coding spellings, six Content-Length kinds, five header formattings, chunk extensions and trailers, every '
+         'truncation point, up to two exchanges in lockstep.  TLC-generated behaviours (messages + piece sizes) and seeded '
+         'random concrete messages under random segmentations down to single octets are served byte-exactly to the real '
+         'wpull.protocol.http.client; each recorded execution is checked by TLC against HttpWireMon (payload, '
+         'truncation-is-error, complete-is-ok, no over-read, persistence: VIOLATION) and HttpWireTrace (DRIFT).',
+    design_ref='DESIGN.md 5 (C08/C04)')
+CHECKS['C04'] = dict(
+    technique='same model and executions as C08, run through the real WARCRecorder; the written WARC file is parsed by an '
+              'independent reader and judged by the TLC monitor (record block fidelity, count, linkage)',
+    text='The executions of C08 additionally run through the real WARCRecorder attached to the real HTTP client; an '
+         'independent minimal WARC reader extracts every record block; HttpWireMon (TLC) compares each response block with '
+         'RefMessageBytes of the message the scripted server sent (every octet once, in order, nothing of the neighbouring '
+         'exchanges, overrun octets excluded), each request block with the octets the server received, and checks one '
+         'request + one response/revisit record per completed exchange with WARC-Concurrent-To linkage.',
+    design_ref='DESIGN.md 5 (C08/C04)')
+CHECKS['C19'] = dict(
+    technique='TLA+ decoder model parameterised by measured zlib profiles, checked by TLC; TLC-enumerated compositions '
+              'replayed into the real decompressors and Stream.read_body; TLC monitor + strict trace validation',
+    text='Decoder.tla abstracts a zlib inflater by the profile of the body (where it raises, where it reaches eof, what it '
+         'has emitted after k bytes) and models GzipDecompressor / DeflateDecompressor / the stream conversions; TLC checks '
+         'output-equals-one-shot and corrupt-or-truncated-is-an-error for every composition of the body into pieces.  '
+         'Every composition of every real body <= 7 bytes (quick) / <= 11 bytes (thorough) x gzip, zlib, raw, identity x '
+         'every truncation x single-byte corruptions is replayed into the real classes and through Stream.read_body '
+         '(Content-Length, close and chunked paths) over the in-memory network; DecoderMon compares with the one-shot '
+         'reference (inflate results come from zlib in the projection).',
+    design_ref='DESIGN.md 5 (C19)')
+CHECKS['C16'] = dict(
+    technique='TLA+ model of WebSession / Request.prepare_for_send / CookieJarWrapper / RedirectTracker checked by TLC; '
+              'TLC-generated server strategies and URL-text classes played against the real WebClient over an in-memory '
+              'network; received bytes parsed independently and judged by a TLC monitor; strict trace validation',
+    text='WebSession.tla models the request object across redirects, authentication retries and cookies; TLC checks '
+         'one-Host-for-the-URL, credentials and cookies only for their host, no https->http referrer, redirect bound.  '
+         'Exhaustive for visits of <= 2 requests over 2 hosts (schemes and ports in thorough), simulated for chains of '
+         '<= 5 requests over 3 hosts x 2 schemes x 2 ports x 8 status codes; URL-text classes (user-info, IDN, IPv6, ports, '
+         'encoded delimiters, %0D%0A, spaces) with <= 2 (quick) / <= 3 (thorough) odd components are used as start URL and '
+         'as Location.  The bytes the scripted server received are parsed independently; WebSessionMon (TLC) evaluates '
+         'nine clauses (target, one Host, auth, cookie, referrer, well-formed, bound, delivered, ends).',
+    design_ref='DESIGN.md 5 (C16)')
+WARC_TEXT = ('WarcWriter.tla models the recorder as the sequence of file-system operations of an append (journal create/write/'
+             'close, archive open/write/close, journal remove, CDX append) inside start-up, HTTP/FTP sessions, rollover and '
+             'close, with I/O-error and crash actions; TLC checks it for <= 2 sessions, <= 2 processes, one error, one kill.  '
+             'The real WARCRecorder runs under a counting/faulting file-operation layer on scripted recorder sessions and '
+             'on the real HTTP client over the in-memory network; an independent strict WARC/CDX/journal reader projects '
+             'the files; TLC evaluates every clause on that projection (WarcWriterMon: VIOLATION; WarcWriterTrace: DRIFT).  ')
+CHECKS['C05'] = dict(
+    technique='TLA+ model of the WARC recorder as file-system operations + TLC; files written by the real recorder read by '
+              'an independent reader and judged by the TLC monitor',
+    text=WARC_TEXT + 'C05: 13 clauses on fault-free runs of 55 (quick) to 1500 (thorough) scenarios: record sequence, one '
+         'gzip member per record, framing, one line per named field, Content-Length, unique IDs, warcinfo pointer, block '
+         'digest, payload-digest range for request/response/revisit.  SHA-1 values are computed by the reader.',
+    design_ref='DESIGN.md 5 (C05-C07)')
+CHECKS['C06'] = dict(
+    technique='TLA+ model with IOError and Crash actions + TLC; fault and kill enumeration at every operation of every append '
+              'of the real recorder, judged by the TLC monitor',
+    category='model_checking',
+    text=WARC_TEXT + 'C06: at every operation index an injected OSError (journal and archive open/write/close/unlink) and a '
+         'really killed forked child + restart: content restored and journal removed after a handled fault; after a kill '
+         'the archive is valid or the journal names the pre-append length and truncating restores validity; start-up '
+         'refuses while a journal exists.',
+    design_ref='DESIGN.md 5 (C05-C07)')
+CHECKS['C07'] = dict(
+    technique='TLA+ model of append + CDX + rollover + TLC; CDX files written by the real recorder judged by the TLC monitor',
+    text=WARC_TEXT + 'C07: one CDX line per response record and no stray line; file/offset/length address exactly the '
+         'record (one gzip member when compressed) across rollover and appending; URL, record id, payload digest, status '
+         'and MIME type equal the record / archived response (header shapes up to and beyond 4 KiB).',
+    design_ref='DESIGN.md 5 (C05-C07)')
+URL_TEXT = ('UrlNorm.tla defines the URL input space as structured families over an alphabet of about 30 character classes '
+            '(authority, path, query/fragment, cross and encoding clusters; base input + respellings), an '
+            'implementation-shaped transcription Norm of URLInfo.parse/url (IPv4/IPv6/IDNA handling included) and the '
+            'property predicates.  TLC enumerates the clusters, checks the predicates on Norm (design check) and prints the '
+            'families; every member is run through the real wpull.url; TLC evaluates the predicates on the REAL outputs '
+            '(UrlNormMon: VIOLATION) and compares them with Norm (UrlNormTrace: DRIFT).  Representative classes, not all of '
+            'Unicode / IDNA.  ')
+CHECKS['C10'] = dict(
+    technique='TLA+ transcription and predicates checked by TLC; TLC-enumerated inputs executed on the real code; real '
+              'outputs judged by TLC monitor and trace specs',
+    text=URL_TEXT + 'C10 clauses: ASCII, no whitespace/C0, lower-case scheme and host, default port omitted, no dot or empty '
+         'segments, upper-case escapes, idempotent, round trip, variants agree.  About 15 k inputs quick, 177 k thorough.',
+    design_ref='DESIGN.md 5 (C10/C11)')
+CHECKS['C11'] = dict(
+    technique='same machinery as C10 with totality clauses evaluated by TLC on outcomes observed from the real code',
+    text=URL_TEXT + 'C11 clauses: parse returns or raises ValueError; every documented attribute/accessor readable; '
+         'parse_url_or_log never raises; urljoin/urljoin_safe raise only ValueError; termination (recursion limit + CPU '
+         'watchdog).  Structured clusters, 14 document encodings and TLC-enumerated delimiter soup (all strings <= 5 over 10 '
+         'delimiters ...): about 26 k inputs quick, 188 k thorough.',
+    design_ref='DESIGN.md 5 (C10/C11)')
+CHECKS['C15'] = dict(
+    technique='TLA+ transcription of the path-naming functions + containment predicate checked by TLC; TLC-enumerated '
+              'scenarios executed on the real PathNamer / file writer session; chosen paths judged by the TLC monitor',
+    text='PathName.tla transcribes url_to_dir_parts, url_to_filename, FTP unquote-after-split, safe_filename, '
+         'parse_content_disposition and the writer session path choice, and defines Contained.  TLC enumerates parts x 120 '
+         'sanitiser configurations, URLs x 64 structural and 120 sanitiser configurations, Content-Disposition values x 16 '
+         'configurations, checks Contained on the transcription and prints the scenarios; each runs through the real '
+         'PathNamer / BaseFileWriterSession under a real temporary directory; TLC evaluates Returns, Prefixed, Contained and '
+         'Inside (realpath) on the chosen paths (VIOLATION) and compares with the transcription (DRIFT).  18 k scenarios '
+         'quick, 377 k thorough.',
+    design_ref='DESIGN.md 5 (C15)')
+CHECKS['C09'] = dict(
+    technique='TLA+ exception-propagation model (ErrorFlow.tla) checked by TLC; TLC-enumerated fault, malformation, cut and '
+              'document cases executed against the real application over an in-memory network and through the real '
+              'scrapers; each recorded run judged by a TLC monitor (clauses + drift against the model prediction)',
+    text='PARTIAL (see level_note).  ErrorFlow.tla transcribes every try/except frame between the primitives and '
+         'Application.run (64 sites x 31 exception kinds, CPython + wpull class hierarchy); TLC computes the terminal outcome '
+         'of every (site, kind) and checks that the remotely provokable pairs that escape are exactly the documented ones.  '
+         'On the real code: all 1263 injectable (site, kind) faults in a complete crawl; 146 grammar-level malformation '
+         'classes x segmentation over HTTP, robots.txt and FTP (scripted FTP server); premature close at all 628 byte '
+         'offsets of 5 reference responses; up to 57 k token-level documents x charset labels through the html5lib, CSS, '
+         'JavaScript and sitemap scrapers; ErrorFlowMon (TLC) judges each run (no hang, no escape, others fetched, all rows '
+         'final, target final).',
+    note=TRUST + '  NOT decided: arbitrary byte strings into the document, listing and header parsers (fuzzing territory), '
+         'TLS, the lxml parser, OS sockets and DNS, MLSD, coprocessors and plugins.',
+    design_ref='DESIGN.md 5 (C09), 8')
+
 NOT_YET = {}
 
 
